@@ -112,7 +112,7 @@ theorem step_rendered (o : Opts) (s : St) (lvl : Nat) {t v p : Str} (h : LegalHd
     cases h1 : isRoleTag t <;> cases h2 : s.seenFam <;> simp_all
   have htrim : trimTop (setFam (s.seenFam || t == tFAM) s) = setFam (s.seenFam || t == tFAM) s :=
     trimTop_of_TopOK _ (TopOK_setFam _ s htop)
-  unfold step
+  unfold step place
   simp only [hne, if_false, hpl, hrole', Bool.false_eq_true]
   have hs : ({ s with seenFam := s.seenFam || t == tFAM } : St) = setFam (s.seenFam || t == tFAM) s := rfl
   simp only [hs, htrim, hhdr]
